@@ -206,6 +206,20 @@ impl<'a, P: ?Sized + PathImpl> PathMutImpl<'a, P> {
 
 	#[inline]
 	pub fn normalize(&mut self) {
+		self.remove_dot_segments(false)
+	}
+
+	/// Removes the dot segments of the path.
+	///
+	/// If `trailing_slash` is `true`, a final dot segment leaves a trailing
+	/// `/` (an empty last segment) as in RFC 3986, section 5.2.4.
+	pub(crate) fn remove_dot_segments(&mut self, trailing_slash: bool) {
+		let open = trailing_slash
+			&& matches!(
+				self.last().map(SegmentImpl::as_bytes),
+				Some(CURRENT_SEGMENT) | Some(PARENT_SEGMENT)
+			);
+
 		// Copy the normalized segments, then push them back one by one: `push`
 		// knows how to keep the path unambiguous where it stands (a first
 		// segment that is empty or contains a `:` must not turn into an
@@ -219,7 +233,7 @@ impl<'a, P: ?Sized + PathImpl> PathMutImpl<'a, P> {
 
 		self.clear();
 
-		if ends.len() == 1 && buffer.is_empty() {
+		if !open && ends.len() == 1 && buffer.is_empty() {
 			// A single empty segment is all that is left (`/./`, `a/../`):
 			// this is the directory itself, written `/` or ``
 			// (RFC 3986, section 5.2.4, rule B).
@@ -231,6 +245,10 @@ impl<'a, P: ?Sized + PathImpl> PathMutImpl<'a, P> {
 			let segment = unsafe { P::Segment::new_unchecked(&buffer[offset..end]) };
 			self.push(segment);
 			offset = end
+		}
+
+		if open && !self.is_empty() {
+			self.push(<P::Segment as SegmentImpl>::EMPTY)
 		}
 	}
 }
